@@ -193,15 +193,17 @@ Proof. vm_compute. reflexivity. Qed.
 (* ==========================================================================
    10. "Lies inside the image" for the WHOLE pipeline (not only the tail).
    Model/LocatePipe.locate is locate(raw_image, diameter, ..., preprocess=False) on an
-   integer image, composed from the models of C06 (grey_dilation with locate's
-   margin = max(radius, separation//2 - 1, smoothing_size//2)), C07 (refine_com, python
-   or numba engine, shift_thresh 0.6) and the tail above (where_close, filters, topn,
-   ep with measure_noise); np.percentile and np.sqrt are arbitrary functions.
-   [None] = locate raises.  For every image with non-negative pixels (unsigned dtype,
-   or anything bandpass returned), every radius >= 0 (diameter >= 1), separation,
-   smoothing_size, noise_size, percentile, max_iterations, characterize, minmass,
-   maxsize, topn (for engine='numba': >= 2 axes and diameter >= 3, where the kernels
-   are proved equal to the reference), every returned feature has
+   integer image as the code is after 7e846f3 (F18), composed from
+     image = raw_image.clip(min=0)   (the identity on unsigned images; the model always clips),
+   the models of C06 (grey_dilation on [image] with locate's
+   margin = max(radius, separation//2 - 1, smoothing_size//2)), C07 (refine_com on [image],
+   raw_mass from [raw_image], python or numba engine, shift_thresh 0.6) and the tail above
+   (where_close, filters, topn, ep with measure_noise(image, raw_image)); np.percentile and
+   np.sqrt are arbitrary functions.  [None] = locate raises.
+   For EVERY integer image -- negative pixels included --, every radius >= 0
+   (diameter >= 1), separation, smoothing_size, noise_size, percentile, max_iterations,
+   characterize, minmass, maxsize, topn (for engine='numba': >= 2 axes and diameter >= 3,
+   where the kernels are proved equal to the reference), every returned feature has
      0 <= coordinate <= shape - 1 on every axis,
    and, sharper: it lies in the mask window (within radius_d of the centre along axis d)
    of a window centre c that keeps the distance radius from every border:
@@ -211,17 +213,33 @@ Proof. vm_compute. reflexivity. Qed.
 From Coq Require Import ZArith String.
 From TP Require Import Model.Dilation Model.COM Model.LocatePipe Model.StaticError Proofs.LocatePipe Proofs.StaticError.
 
-Theorem C08_inside_image : forall (percentile : list Z -> Q) (sqrtf : Q -> Q) L im out,
-  (forall p, (0 <= pix im p)%Z) ->
+Theorem C08_inside_image : forall (percentile : list Z -> Q) (sqrtf : Q -> Q) L raw_image out,
   Forall (fun r => (0 <= r)%Z) (l_radius L) ->
-  List.length (l_radius L) = List.length (shape im) ->
-  List.length (l_sep L) = List.length (shape im) -> List.length (l_smooth L) = List.length (shape im) ->
+  List.length (l_radius L) = List.length (shape raw_image) ->
+  List.length (l_sep L) = List.length (shape raw_image) ->
+  List.length (l_smooth L) = List.length (shape raw_image) ->
   (l_numba L = true -> (2 <= List.length (l_radius L))%nat /\ Forall (fun r => (1 <= r)%Z) (l_radius L)) ->
-  locate percentile sqrtf L im = Some out ->
-  Forall (fun x => in_a_window (l_radius L) (shape im) (r_pos (snd (fst x))) /\
-                   inside_image (map inject_Z (shape im)) (r_pos (snd (fst x)))) out.
+  locate percentile sqrtf L raw_image = Some out ->
+  Forall (fun x => in_a_window (l_radius L) (shape raw_image) (r_pos (snd (fst x))) /\
+                   inside_image (map inject_Z (shape raw_image)) (r_pos (snd (fst x)))) out.
 Proof. exact locate_inside_image. Qed.
 Print Assumptions C08_inside_image.
+
+(*     The same for the part of locate after "image = ...", for any image handed to the
+       maxima finding and refinement that has no negative pixel (what bandpass returns,
+       what convert_to_int returns for a float image, what the clip returns), whatever
+       the raw image. *)
+Theorem C08_inside_image_on : forall (percentile : list Z -> Q) (sqrtf : Q -> Q) L image raw_image out,
+  (forall p, (0 <= pix image p)%Z) ->
+  Forall (fun r => (0 <= r)%Z) (l_radius L) ->
+  List.length (l_radius L) = List.length (shape image) ->
+  List.length (l_sep L) = List.length (shape image) -> List.length (l_smooth L) = List.length (shape image) ->
+  (l_numba L = true -> (2 <= List.length (l_radius L))%nat /\ Forall (fun r => (1 <= r)%Z) (l_radius L)) ->
+  locate_on percentile sqrtf L image raw_image = Some out ->
+  Forall (fun x => in_a_window (l_radius L) (shape image) (r_pos (snd (fst x))) /\
+                   inside_image (map inject_Z (shape image)) (r_pos (snd (fst x)))) out.
+Proof. exact locate_on_inside_image. Qed.
+Print Assumptions C08_inside_image_on.
 
 (*     The ingredient about one refinement: whatever the start window inside the image,
        the position _refine reports lies in the mask window of an admissible centre. *)
@@ -232,21 +250,45 @@ Theorem C08_refined_position_in_window : forall pix rawpix radius shape thresh m
 Proof. exact refine_python_in_window. Qed.
 Print Assumptions C08_refined_position_in_window.
 
-(*     The premise "non-negative pixels" is needed: on a signed image with a negative
-       pixel next to the maximum the centroid leaves the window and the image.  The real
-       locate(np.array([[0,0,0],[0,5,-4],[0,0,0]], np.int16), 3, preprocess=False,
-       percentile=0) returns x = -3.0, as the model does. *)
+(*     F18 (fixed in 7e846f3) -- regression witnesses.  The pipeline WITHOUT the clip
+       (locate_without_clip: image = raw_image, as the code was) leaves the image on a
+       signed image with a negative pixel next to the maximum:
+         locate(np.array([[0,0,0],[0,5,-4],[0,0,0]], np.int16), 3, preprocess=False, percentile=0)
+       returned x = -3.0, and the 9 x 9 int16 frame with 50 at [4,1] and -49 at [4,2]
+       (diameter 3, preprocess=False) x = -48.0; with the clip both features sit on their
+       bright pixel. *)
 Definition ex_negative_image : image :=
   {| shape := [3; 3]%Z;
      data := Node (map (fun r => Node (map Leaf r)) [[0; 0; 0]; [0; 5; -4]; [0; 0; 0]]%Z) |}.
 Definition ex_negative_params : lparams :=
   mkL [1; 1]%Z [4; 4] [3; 3] [1; 1] 10 true false 0 None None.
+Definition ex_negative_image9 : image :=
+  {| shape := [9; 9]%Z;
+     data := Node (map (fun y => Node (map (fun x => Leaf (if (y =? 4)%Z then (if (x =? 1)%Z then 50 else if (x =? 2)%Z then -49 else 0) else 0)%Z)
+                                            [0; 1; 2; 3; 4; 5; 6; 7; 8]%Z))
+                       [0; 1; 2; 3; 4; 5; 6; 7; 8]%Z) |}.
 
-Theorem C08_inside_needs_nonnegative_pixels :
+Theorem C08_inside_without_clip_refuted :
   option_map (map (fun x => r_pos (snd (fst x))))
+             (locate_without_clip (fun _ => 0) (fun q => q) ex_negative_params ex_negative_image)
+  = Some [[1; -3]] /\
+  option_map (map (fun x => r_pos (snd (fst x))))
+             (locate_without_clip (fun _ => 1436 # 100) (fun q => q) ex_negative_params ex_negative_image9)
+  = Some [[4; -48]] /\
+  ~ inside_image [3; 3] [1; -3] /\ ~ inside_image [9; 9] [4; -48].
+Proof.
+  split; [vm_compute; reflexivity|]. split; [vm_compute; reflexivity|].
+  split; cbn; intros [_ [_ [H _]]]; revert H; unfold Qle; cbn; intro H; discriminate H || (exfalso; apply H; reflexivity).
+Qed.
+
+Example ex_negative_images_with_clip :
+  option_map (map (fun x => map Qred (r_pos (snd (fst x)))))
              (locate (fun _ => 0) (fun q => q) ex_negative_params ex_negative_image)
-  = Some [[1; -3]].
-Proof. vm_compute. reflexivity. Qed.
+  = Some [[1; 1]] /\
+  option_map (map (fun x => map Qred (r_pos (snd (fst x)))))
+             (locate (fun _ => 1436 # 100) (fun q => q) ex_negative_params ex_negative_image9)
+  = Some [[4; 1]].
+Proof. split; vm_compute; reflexivity. Qed.
 
 (* ==========================================================================
    11. The static error on ALL its columns.  Model/StaticError.v models
